@@ -522,6 +522,9 @@ func (x *Exec) mapLenArr(st *State, mt types.Type) *HArr {
 
 func (x *Exec) mapHas(st *State, m Val, k Val) string {
 	x.noteRead("MD."+typeName(m.T), m.T)
+	if mt, ok := m.T.Underlying().(*types.Map); ok {
+		st.addKey(flatten(k)[0], mapKeySort(mt))
+	}
 	return sAnd(sNot(sEq(m.S, "0")), sSel(x.mapDom(st, m.T).read(m.S), flatten(k)[0]))
 }
 
